@@ -163,7 +163,7 @@ def task(p, k, rows, tier, seed):
             hand, trace = by_hand(ekf, p, [[SymReal(v) for v in row] for row in Xv], DT)
             return tr, tr2, mh, sc, params0, params1, snap0, hand, trace
 
-    cfg = {"gate": "assume", "inverse": "closed", "any_gate": "assume-false", "prune": False, "assume_false_sites": [("transform", "< 0.0"), ("mahalanobis", "< 0.0"), ("assert_valid_covariance", "covariance_eigenvalues < negative_tol")]}
+    cfg = {"gate": "assume", "inverse": "closed", "any_gate": "assume-false", "prune": False, "assume_false_sites": [("transform", "< 0.0"), ("mahalanobis", "< 0.0")]}
     ass = assumes + ([z3.Real("k") > 0] if k == "sym" else [])
     leaves = explore(harness, assumes=ass, config=cfg, max_paths=64)
     part.leaves(leaves)
